@@ -889,12 +889,100 @@ fn shadow_size() -> u64 {
 
 fn _unused(_: BTreeMap<String, V>) {}
 
+// ---------------------------------------------------------------------------
+// macros nested as deep as the parser accepts, every level run by the VM
+
+const NEST_FORMS: [(&str, &str, &str); 5] = [
+    ("map", "l.map(a{i}, ", ")"),
+    ("all", "l.all(a{i}, ", ")"),
+    ("exists", "l.exists(a{i}, ", ")"),
+    ("exists_one", "l.exists_one(a{i}, ", ")"),
+    ("filter", "l.filter(a{i}, ", ").size() == 1u"),
+];
+
+fn run_nested_macros(idx: u64, acc: &mut Acc) {
+    let (name, open, close) = NEST_FORMS[(idx % 5) as usize];
+    let k = (idx / 5) as usize + 1;
+    let mut src = String::new();
+    for i in 0..k {
+        src.push_str(&open.replace("{i}", &i.to_string()));
+    }
+    src.push_str(if name == "map" { "a0 + 1" } else { "a0 == 0" });
+    for _ in 0..k {
+        src.push_str(close);
+    }
+    let b = real::bindings(&[("l", V::list(&[V::Int(0)]))]);
+    let got = real::eval_with(&src, &b);
+    acc.eval();
+    acc.class(&got.class());
+    if got.is_compile_fail() {
+        acc.count("nested macros beyond the parser's nesting limit (skipped)", 1);
+        return;
+    }
+    acc.nontrivial(&("nested", idx));
+    let mut want = if name == "map" { V::Int(1) } else { V::Bool(true) };
+    if name == "map" {
+        for _ in 0..k {
+            want = V::List(vec![want]);
+        }
+    }
+    if !got.value().map(|g| g.same(&want)).unwrap_or(false) {
+        acc.violation(
+            &format!("nested {} {}", name, if k < 16 { "fewer than 16 levels" } else { "16 levels or more" }),
+            json!({"src": src, "levels": k, "l": "[0]"}),
+            want.show().chars().take(120).collect(),
+            got.show().chars().take(200).collect(),
+        );
+    }
+}
+
+// ---------------------------------------------------------------------------
+// a body that fails, the failure absorbed, and the loop variable's name read afterwards
+
+const FAILING_MACROS: [&str; 7] = [
+    "l.all(x, 10 / x > 0)",
+    "l.exists(x, 10 / x > 100)",
+    "l.exists_one(x, 10 / x > 100)",
+    "l.filter(x, 10 / x > 0)",
+    "l.map(x, 10 / x)",
+    "l.map(x, 10 / x > 0, x)",
+    "l.reduce(x, e, x + 10 / e, 0)",
+];
+const AFTER_FORMS: [&str; 4] = ["(has({M}) || true) ? x : -1", "[has({M}), x][1]", "(coalesce({M}, 0) == 0 || true) ? x + 0 : -1", "[1].map(q, (has({M}) || true) ? x : -1)[0]"];
+
+fn run_absorbed(idx: u64, acc: &mut Acc) {
+    let d = unrank(idx, &[FAILING_MACROS.len() as u64, AFTER_FORMS.len() as u64, 3, 2]);
+    let m = FAILING_MACROS[d[0] as usize];
+    let src = AFTER_FORMS[d[1] as usize].replace("{M}", m);
+    let l = [vec![0i64, 1, 5], vec![1, 0, 5], vec![1, 5, 0]][d[2] as usize].iter().map(|i| V::Int(*i)).collect::<Vec<_>>();
+    let outer_bound = d[3] == 1;
+    let mut binds: Vec<(&str, V)> = vec![("l", V::List(l.clone()))];
+    if outer_bound {
+        binds.push(("x", V::Int(100)));
+    }
+    let got = real::eval(&src, &binds);
+    acc.eval();
+    acc.class(&got.class());
+    acc.nontrivial(&("absorbed", idx));
+    let ok = if outer_bound { matches!(got.value(), Some(V::Int(100))) } else { matches!(got.fail_kind(), Some(k) if k.is_absent()) };
+    if !ok {
+        acc.violation(
+            &format!("`{}` after-an-absorbed-failure the-name-x-reads-{}", m, if outer_bound { "something-else-than-the-outer-binding" } else { "as-bound" }),
+            json!({"src": src, "l": format!("{:?}", l.iter().map(|v| v.show()).collect::<Vec<_>>()), "outer_x": if outer_bound { "100" } else { "unbound" }}),
+            if outer_bound { "Int(100)".into() } else { "an unbound-variable failure".into() },
+            got.show(),
+        );
+    }
+}
+
 pub fn replay_families(t: Tier) -> Vec<Family<'static>> {
     let sp: &'static Space = Box::leak(Box::new(Space::new(t)));
     vec![
         Family::new("list-macros", sp.size(), move |i, a| sp.run(i, a)),
         Family::new("map-key-order", (KEYSETS.len() * 15 * MAPMACROS.len()) as u64, run_mapcase),
         Family::new("map-failing-bodies", failbody_size(), run_failbody),
+        Family::new("nested-macros", 5 * 31, run_nested_macros),
+        Family::new("absorbed-failures", (FAILING_MACROS.len() * AFTER_FORMS.len() * 3 * 2) as u64, run_absorbed),
         Family::new("typed-elements", typed_size(), run_typed),
         Family::new("shadowed-programs", shadow_size(), run_shadow),
     ]
@@ -904,7 +992,7 @@ pub fn run(t: Tier) -> i32 {
     let mut rep = Report::new(ID, t, "exploration");
     let sp = Space::new(t);
     rep.rule = format!(
-        "list-macros: {} lists (all lists of length <= {} over {{0,1,2}}, all 0/1 lists up to length {}, lists of length {} with at most {} ones - beyond the call-depth limit of 32) x {} macro forms (all/exists/exists_one/filter x 11 bodies, map/2 x 4, map/3 x 20, reduce x 6; bodies read the loop variable, an outer variable, a stored program, inner macros re-using the name or reading the outer loop variable, a call-recording function, fail at the element 1, or read an unbound name) x literal/bound list x outer binding of the loop variable name absent/100 x the name read before/after the macro; the result and the exact log of recorded calls (visiting order and stopping point) must equal the defining fold, and the caller's binding of the name must be unchanged. map-key-order: every non-empty subset of 4 keys (three key sets: letters, and two of texts that look like numbers - 10, 9, 1a, +1 and 1, 01, 2, b) x 5 macro forms, the map built in every insertion order as literal, literal with variable values, bound HashMap and JSON, evaluated twice each: a permutation of the images and always the same permutation. map-failing-bodies: the same key sets, orders and four ways of building the map x 4 macro forms (filter, map/2, map/3 predicate, map/3 expression) whose body divides by zero on the keys a and c, fails to convert on b and succeeds on d, four fresh programs each: the outcome (value, or class of the error - the first failing key decides it) must be the same for every instance of the same key set. typed-elements: all lists of length <= 3 over 10 elements of every type (strings, lists, maps, null, double, bool, bytes, uint) x 9 macro forms whose result is determined by identity and truthiness, literal and bound. shadowed-programs: all lists of length <= 3 over {{0,1,2}} x all macro forms with programs stored under the loop-variable names (x, acc). Non-trivial = every case; distinct by (index, form)",
+        "list-macros: {} lists (all lists of length <= {} over {{0,1,2}}, all 0/1 lists up to length {}, lists of length {} with at most {} ones - beyond the call-depth limit of 32) x {} macro forms (all/exists/exists_one/filter x 11 bodies, map/2 x 4, map/3 x 20, reduce x 6; bodies read the loop variable, an outer variable, a stored program, inner macros re-using the name or reading the outer loop variable, a call-recording function, fail at the element 1, or read an unbound name) x literal/bound list x outer binding of the loop variable name absent/100 x the name read before/after the macro; the result and the exact log of recorded calls (visiting order and stopping point) must equal the defining fold, and the caller's binding of the name must be unchanged. map-key-order: every non-empty subset of 4 keys (three key sets: letters, and two of texts that look like numbers - 10, 9, 1a, +1 and 1, 01, 2, b) x 5 macro forms, the map built in every insertion order as literal, literal with variable values, bound HashMap and JSON, evaluated twice each: a permutation of the images and always the same permutation. map-failing-bodies: the same key sets, orders and four ways of building the map x 4 macro forms (filter, map/2, map/3 predicate, map/3 expression) whose body divides by zero on the keys a and c, fails to convert on b and succeeds on d, four fresh programs each: the outcome (value, or class of the error - the first failing key decides it) must be the same for every instance of the same key set. nested-macros: map, all, exists, exists_one and filter nested 1..31 levels over a bound list (as deep as the parser accepts): the defining folds' value at every depth; absorbed-failures: 7 macros whose body divides by an element that is zero at the first, middle or last place, the failure absorbed by has/coalesce, and the loop variable's name read afterwards in 4 forms: the outer binding (100) or, without one, an unbound-variable failure; typed-elements: all lists of length <= 3 over 10 elements of every type (strings, lists, maps, null, double, bool, bytes, uint) x 9 macro forms whose result is determined by identity and truthiness, literal and bound. shadowed-programs: all lists of length <= 3 over {{0,1,2}} x all macro forms with programs stored under the loop-variable names (x, acc). Non-trivial = every case; distinct by (index, form)",
         sp.lists.len(),
         t.pick(5, 6),
         t.pick(8, 10),
@@ -915,6 +1003,8 @@ pub fn run(t: Tier) -> i32 {
     rep.run_family(Family::new("list-macros", sp.size(), |i, a| sp.run(i, a)));
     rep.run_family(Family::new("map-key-order", (KEYSETS.len() * 15 * MAPMACROS.len()) as u64, run_mapcase));
     rep.run_family(Family::new("map-failing-bodies", failbody_size(), run_failbody));
+    rep.run_family(Family::new("nested-macros", 5 * 31, run_nested_macros));
+    rep.run_family(Family::new("absorbed-failures", (FAILING_MACROS.len() * AFTER_FORMS.len() * 3 * 2) as u64, run_absorbed));
     rep.run_family(Family::new("typed-elements", typed_size(), run_typed));
     rep.run_family(Family::new("shadowed-programs", shadow_size(), run_shadow));
     rep.assumptions = vec![
